@@ -170,6 +170,18 @@ func (ex *Exec) newObj(t types.Type, name string) *Obj {
 	return &Obj{ID: ex.nobj, Typ: t, Name: name}
 }
 
+// backingFor: two loads of the same (unchanged) heap cell denote the same backing array.
+func (ex *Exec) backingFor(arr string) int {
+	ex.mu.Lock()
+	defer ex.mu.Unlock()
+	if b, ok := ex.backings[arr]; ok {
+		return b
+	}
+	ex.nback++
+	ex.backings[arr] = ex.nback
+	return ex.nback
+}
+
 func (ex *Exec) newBacking() int {
 	ex.mu.Lock()
 	defer ex.mu.Unlock()
@@ -352,7 +364,7 @@ func (ex *Exec) readLeaf(st *State, root types.Type, ref string, names string, t
 		arr := smt.Sel(ex.heapArr(st, ka, ArrSort(u.Elem())), ref)
 		ln := smt.Sel(ex.heapArr(st, kl, "Int"), ref)
 		ex.lenFacts(ln)
-		return Slice{Arr: arr, Len: ln, Elem: u.Elem(), B: ex.newBacking(), Origin: origin}
+		return Slice{Arr: arr, Len: ln, Elem: u.Elem(), B: ex.backingFor(arr), Origin: origin}
 	case *types.Map:
 		ks, ok1 := SortOf(u.Key())
 		vs, ok2 := SortOf(u.Elem())
